@@ -433,7 +433,8 @@ fn nts_undecryptable(layout: u8, b0: u8, class: crate::c16::Class, versions: [Nt
     cfg.n_versions = 1;
     let mut server = build_server(&cfg, SymClock { now: tt::ts_from_raw(now) }, info, zero_keyset());
     let mut stats = RecStats::new();
-    let mut send_buf = [0u8; 160];
+    // longer than --max-field-sensitivity-array-size: the serialiser writes at positions symex cannot fold
+    let mut send_buf = [0u8; 256];
     let act = server.handle(IpAddr::V4(Ipv4Addr::new(192, 0, 2, 1)), tt::ts_from_raw(recv), &msg[..len], &mut send_buf[..len], &mut stats);
     let out = outcome(&act);
     check_stats!(stats, out);
@@ -491,7 +492,8 @@ fn nts_nonclient(sym_header: bool, b0: u8) -> Outcome {
     cfg.n_versions = 1;
     let mut server = build_server(&cfg, SymClock { now: tt::ts_from_raw(0x1234_5678_0000_0000) }, info, zero_keyset());
     let mut stats = RecStats::new();
-    let mut send_buf = [0u8; 160];
+    // longer than --max-field-sensitivity-array-size: the serialiser writes at positions symex cannot fold
+    let mut send_buf = [0u8; 256];
     let act = server.handle(IpAddr::V4(Ipv4Addr::new(192, 0, 2, 1)), tt::ts_from_raw(0x1234_5677_0000_0000), &msg[..len], &mut send_buf[..len], &mut stats);
     let out = outcome(&act);
     std::mem::forget(server);
